@@ -96,6 +96,14 @@ static bool HasNaNInPointRect(const rc::AbsMsg & m)
    }
    return false;
 }
+static bool HasNonAsciiName(const rc::AbsMsg & m)
+{
+   for (size_t f = 0; f < m.fields.size(); f++) {
+      for (size_t i = 0; i < m.fields[f].name.size(); i++) if (((unsigned char)m.fields[f].name[i]) >= 0x80) return true;
+      for (size_t i = 0; i < m.fields[f].msgs.size(); i++) if (HasNonAsciiName(m.fields[f].msgs[i])) return true;
+   }
+   return false;
+}
 static bool HasEmptyRawItem(const rc::AbsMsg & m)
 {
    for (size_t f = 0; f < m.fields.size(); f++) {
@@ -107,22 +115,32 @@ static bool HasEmptyRawItem(const rc::AbsMsg & m)
 }
 
 struct Gen {
-   std::vector<Kind> kinds;
-   Gen() : kinds(MakeKinds()) {}
-   // index space: primary kind x item count (1..3) x second field (none | kind) x wrap level (0..3, capped so that nesting <= 3)
+   std::vector<Kind> kinds; bool thorough;
+   explicit Gen(bool t) : kinds(MakeKinds()), thorough(t) {}
+   // ONE index space for both tiers (replays do not depend on the tier):
+   //   primary kind x item count (1..4) x second field (none | kind x 1..3 items) x wrap level (0..3, capped so that nesting <= 3)
+   // quick tier = the sub-space {item count <= 3, second field absent or with 2 items}; thorough tier = everything.
    size_t NK() const { return kinds.size(); }
-   size_t Count() const { return NK() * 3 * (NK() + 1) * 4; }
-   void Decode(size_t i, int & k, int & c, int & k2, int & wrap) const { wrap = (int)(i % 4); i /= 4; k2 = (int)(i % (NK() + 1)) - 1; i /= (NK() + 1); c = 1 + (int)(i % 3); i /= 3; k = (int)i; }
+   size_t Count() const { return NK() * 4 * (NK() * 3 + 1) * 4; }
+   void Decode(size_t i, int & k, int & c, int & k2, int & n2, int & wrap) const
+   {
+      wrap = (int)(i % 4); i /= 4; const size_t sec = i % (NK() * 3 + 1); i /= (NK() * 3 + 1); c = 1 + (int)(i % 4); i /= 4; k = (int)i;
+      if (sec == 0) { k2 = -1; n2 = 0; } else { k2 = (int)((sec - 1) / 3); n2 = 1 + (int)((sec - 1) % 3); }
+   }
+   bool InQuick(size_t i) const { int k, c, k2, n2, w; Decode(i, k, c, k2, n2, w); return c <= 3 && (k2 < 0 || n2 == 2); }
+   // the part "mini-gateway-out" runs a sub-space (see main): quick: no second field; thorough: no second field or a second field of the primary's kind
+   bool MiniOutSelected(size_t i) const { int k, c, k2, n2, w; Decode(i, k, c, k2, n2, w); return thorough ? (k2 < 0 || k2 == k) : (InQuick(i) && k2 < 0); }
    static void Fill(rc::AbsField & f, const Kind & k, int from, int n) { for (int j = 0; j < n; j++) { if (k.type == rc::T_MESSAGE) f.msgs.push_back(k.mv[(from + j) % 3]); else f.items.push_back(k.v[(from + j) % 3]); } }
-   // returns false if case i is a duplicate of another index (wrap level not reachable within nesting <= 3)
+   // returns false if index i is not part of the enumerated set (outside the tier's sub-space, or wrap level beyond the nesting cap)
    bool Make(size_t i, rc::AbsMsg & out, std::string * desc = NULL) const
    {
-      int k, c, k2, wrap; Decode(i, k, c, k2, wrap);
-      static const char * names[] = {"f", "", "n\xC3\xA9"};   // 1 item: "f"; 2 items: EMPTY field name; 3 items: non-ASCII (UTF-8) name
+      if (!thorough && !InQuick(i)) return false;
+      int k, c, k2, n2, wrap; Decode(i, k, c, k2, n2, wrap);
+      static const char * names[] = {"f", "", "n\xC3\xA9", "four"};   // 1 item: "f"; 2 items: EMPTY field name; 3 items: non-ASCII (UTF-8) name
       static const uint32 whats[] = {0, rc::PROTOCOL_PM00, 0xFFFFFFFFu, 0x80000000u};
       rc::AbsMsg m(whats[(c + wrap) % 4]);
       rc::AbsField f(names[c - 1], kinds[k].type); Fill(f, kinds[k], 0, c); m.fields.push_back(f);
-      if (k2 >= 0) { rc::AbsField g("second", kinds[k2].type); Fill(g, kinds[k2], 1, 2); m.fields.push_back(g); }
+      if (k2 >= 0) { rc::AbsField g("second", kinds[k2].type); Fill(g, kinds[k2], 1, n2); m.fields.push_back(g); }
       if (rc::Depth(m) + wrap > 3) return false;
       for (int w = 0; w < wrap; w++) {
          rc::AbsMsg p(whats[w]); rc::AbsField s("sub", rc::T_MESSAGE); s.msgs.push_back(m); if (w == 1) s.msgs.push_back(m);   // second level holds the Message twice
@@ -131,7 +149,7 @@ struct Gen {
          m = p;
       }
       out = m;
-      if (desc) *desc = verif::Fmt("{\"primary\": \"%s\", \"items\": %d, \"second\": \"%s\", \"wrap\": %d, \"dump\": ", kinds[k].name.c_str(), c, (k2 >= 0) ? kinds[k2].name.c_str() : "-", wrap) + verif::JStr(rc::Dump(m)) + "}";
+      if (desc) *desc = verif::Fmt("{\"primary\": \"%s\", \"items\": %d, \"second\": \"%s\", \"second_items\": %d, \"wrap\": %d, \"dump\": ", kinds[k].name.c_str(), c, (k2 >= 0) ? kinds[k2].name.c_str() : "-", n2, wrap) + verif::JStr(rc::Dump(m)) + "}";
       return true;
    }
 };
@@ -301,7 +319,7 @@ static int32 SendCb(const uint8 * buf, uint32 n, void * arg) { Cursor * c = (Cur
 #define CFAIL(k, text) do { c.Fail((k), (text)); return; } while (0)
 static void CheckCodecs(const Gen & G, size_t i, mutx::Case & c)
 {
-   rc::AbsMsg model; if (!G.Make(i, model)) { c.Outcome("dup"); return; }
+   rc::AbsMsg model; if (!G.Make(i, model)) { c.Outcome("not-in-set"); return; }
    const std::string mdump = rc::Dump(model); std::string err;
    Message m; if (BuildInto(model, m).IsError()) CFAIL("harness:build", "could not build the C++ Message");
    const std::string bytes = CppFlatten(m);
@@ -348,7 +366,7 @@ static void CheckCodecs(const Gen & G, size_t i, mutx::Case & c)
 // ================================================================ stream frame: C++ gateway <-> mini gateway <-> micro gateway
 static void CheckFrames(const Gen & G, size_t i, mutx::Case & c)
 {
-   rc::AbsMsg model; if (!G.Make(i, model)) { c.Outcome("dup"); return; }
+   rc::AbsMsg model; if (!G.Make(i, model)) { c.Outcome("not-in-set"); return; }
    std::string err; Message m; if (BuildInto(model, m).IsError()) CFAIL("harness:build", "could not build the C++ Message");
    const std::string body = rc::Encode(model), expect = rc::Framed(body);
    // C++ gateway output == documented frame + body
@@ -380,17 +398,6 @@ static void CheckFrames(const Gen & G, size_t i, mutx::Case & c)
       if (!why.empty()) CFAIL(HasEmptyRawItem(model) ? "frame:cpp->micro:empty-raw-item" : "frame:cpp->micro", why);
       if (got != 2) CFAIL("frame:cpp->micro", verif::Fmt("micro gateway delivered %d of 2 Messages", got));
    }
-   // mini gateway output -> identical stream -> C++ gateway input
-   {
-      MMessage * mm = MiniBuild(model); MMessageGateway * g = MGAllocMessageGateway(); if (!mm || !g) CFAIL("harness:mini", "allocation failed");
-      Cursor cur = { NULL, 0, 7, "" }; bool ok = (MGAddOutgoingMessage(g, mm) == CB_NO_ERROR) && (MGAddOutgoingMessage(g, mm) == CB_NO_ERROR);
-      for (int guard = 0; ok && guard < 100000 && MGHasBytesToOutput(g); guard++) if (MGDoOutput(g, ~(uint32)0, SendCb, &cur) < 0) ok = false;
-      MMFreeMessage(mm); MGFreeMessageGateway(g);
-      if (!ok) CFAIL("frame:mini-out", "mini gateway output failed");
-      if (cur.sink != two) CFAIL("frame:mini-out", "mini gateway stream differs from the C++ gateway stream: header " + verif::Hex(cur.sink.substr(0, 8)) + " expected " + verif::Hex(expect.substr(0, 8)));
-      std::vector<rc::AbsMsg> in; if (!CppGatewayIn(cur.sink, in, err)) CFAIL("frame:mini->cpp", "C++ gateway rejects the mini gateway's stream: " + err);
-      if (in.size() != 2 || !rc::Equal(in[0], model) || !rc::Equal(in[1], model)) CFAIL("frame:mini->cpp", verif::Fmt("C++ gateway delivered %u Messages / different content", (unsigned)in.size()));
-   }
    // micro gateway output
    {
       std::vector<uint8> inb(16), outb(2 * (body.size() + 8) + 64); UMessageGateway g; UGGatewayInitialize(&g, &inb[0], (uint32)inb.size(), &outb[0], (uint32)outb.size());
@@ -410,6 +417,22 @@ static void CheckFrames(const Gen & G, size_t i, mutx::Case & c)
    c.Outcome(verif::Hex(expect.substr(0, 8)));
 }
 
+// mini gateway output -> identical stream -> C++ gateway input (its own part: see the note in main)
+static void CheckMiniGatewayOut(const Gen & G, size_t i, mutx::Case & c)
+{
+   rc::AbsMsg model; if (!G.Make(i, model)) { c.Outcome("not-in-set"); return; }
+   std::string err; const std::string body = rc::Encode(model), expect = rc::Framed(body), two = expect + expect;
+   MMessage * mm = MiniBuild(model); MMessageGateway * g = MGAllocMessageGateway(); if (!mm || !g) CFAIL("harness:mini", "allocation failed");
+   Cursor cur = { NULL, 0, 7, "" }; bool ok = (MGAddOutgoingMessage(g, mm) == CB_NO_ERROR) && (MGAddOutgoingMessage(g, mm) == CB_NO_ERROR);
+   for (int guard = 0; ok && guard < 100000 && MGHasBytesToOutput(g); guard++) if (MGDoOutput(g, ~(uint32)0, SendCb, &cur) < 0) ok = false;
+   MMFreeMessage(mm); MGFreeMessageGateway(g);
+   if (!ok) CFAIL("frame:mini-out", "mini gateway output failed");
+   if (cur.sink != two) CFAIL("frame:mini-out", "mini gateway stream differs from frame + body: header " + verif::Hex(cur.sink.substr(0, 8)) + " expected " + verif::Hex(expect.substr(0, 8)));
+   std::vector<rc::AbsMsg> in; if (!CppGatewayIn(cur.sink, in, err)) CFAIL("frame:mini->cpp", "C++ gateway rejects the mini gateway's stream: " + err);
+   if (in.size() != 2 || !rc::Equal(in[0], model) || !rc::Equal(in[1], model)) CFAIL("frame:mini->cpp", verif::Fmt("C++ gateway delivered %u Messages / different content", (unsigned)in.size()));
+   c.Outcome(verif::Hex(expect.substr(0, 8)));
+}
+
 // ================================================================ Python
 struct PyRow { std::string dump, reflat, native, sentHdr, sentBody, recvDump; bool have; PyRow() : have(false) {} };
 struct PyData { std::vector<PyRow> rows; std::vector<std::string> flags; std::string error; };
@@ -424,30 +447,33 @@ static std::string PyFlags(const rc::AbsMsg & model)
 
 static void CheckPython(const Gen & G, const PyData & P, size_t i, mutx::Case & c)
 {
-   rc::AbsMsg model; if (!G.Make(i, model)) { c.Outcome("dup"); return; }
+   rc::AbsMsg model; if (!G.Make(i, model)) { c.Outcome("not-in-set"); return; }
    const std::string & fl = P.flags[i]; const PyRow & r = P.rows[i];
    if (fl == "x") { c.Outcome("skipped:non-utf8"); return; }
    if (!r.have) CFAIL("harness:python", "no result line from the Python helper: " + P.error);
    const std::string body = rc::Encode(model), mdump = rc::Dump(model); std::string err;
+   const std::string sfx = HasNonAsciiName(model) ? ":non-ascii-field-name" : "";   // failure class (the key names the input class that fails, see known_findings)
    const bool cmpParse = !HasNaNInPointRect(model);
-   if (r.dump.compare(0, 4, "ERR:") == 0) CFAIL("parse:python", "message.py raised while parsing the C++ bytes: " + r.dump);
+   if (r.dump.compare(0, 4, "ERR:") == 0) CFAIL("parse:python" + sfx, "message.py raised while parsing the C++ bytes: " + r.dump);
    if (cmpParse) {
-      if (r.dump != mdump) CFAIL("content:python", "message.py parsed different content: python " + r.dump + " expected " + mdump);
-      if (r.reflat.compare(0, 4, "ERR:") == 0) CFAIL("size:python", r.reflat);
-      if (r.reflat != verif::Hex(body)) CFAIL("reflatten:python", "message.py re-serialises differently: python " + r.reflat + " cpp " + verif::Hex(body));
+      if (r.dump != mdump) CFAIL("content:python" + sfx, "message.py parsed different content: python " + r.dump + " expected " + mdump);
+      if (r.reflat.compare(0, 4, "ERR:") == 0) CFAIL("size:python" + sfx, "message.py: " + r.reflat + " for " + mdump);
+      if (r.reflat != verif::Hex(body)) CFAIL("reflatten:python" + sfx, "message.py re-serialises differently: python " + r.reflat + " cpp " + verif::Hex(body));
    }
    if (fl.find('n') != std::string::npos) {
-      if (r.native.compare(0, 4, "ERR:") == 0) CFAIL("native:python", "building the content with message.py Put* raised: " + r.native);
+      if (r.native.compare(0, 4, "ERR:") == 0) CFAIL("native:python" + sfx, "building the content with message.py Put* raised: " + r.native);
       std::string nb; if (!verif::UnHex(r.native, nb)) CFAIL("harness:python", "bad hex from helper");
-      rc::AbsMsg back; if (!CppParse(nb, back, err)) CFAIL("accept:python->cpp", "C++ rejects what message.py produced: " + err + " bytes " + r.native);
-      if (!rc::Equal(back, model)) CFAIL("accept:python->cpp", "C++ parses message.py's bytes to different content: " + rc::Dump(back) + " expected " + mdump);
-      if (nb != body) CFAIL("native-bytes:python", "natively built Python Message serialises differently: python " + r.native + " cpp " + verif::Hex(body));
+      rc::AbsMsg back; if (!CppParse(nb, back, err)) CFAIL("accept:python->cpp" + sfx, "C++ rejects what message.py produced: " + err + " bytes " + r.native + " expected " + verif::Hex(body));
+      if (!rc::Equal(back, model)) CFAIL("accept:python->cpp" + sfx, "C++ parses message.py's bytes to different content: " + rc::Dump(back) + " expected " + mdump);
+      if (nb != body) CFAIL("native-bytes:python" + sfx, "natively built Python Message serialises differently: python " + r.native + " cpp " + verif::Hex(body));
    }
-   if (fl.find('t') != std::string::npos && r.sentHdr != "-") {
-      if (r.sentHdr.compare(0, 4, "ERR:") == 0 || r.recvDump.compare(0, 4, "ERR:") == 0) CFAIL("frame:python", "MessageTransceiverThread: " + r.sentHdr + " " + r.recvDump);
-      if (r.sentHdr != verif::Hex(rc::Frame((uint32_t)body.size()))) CFAIL("frame:python-out", "message_transceiver_thread.py frame header " + r.sentHdr + " expected " + verif::Hex(rc::Frame((uint32_t)body.size())));
-      if (r.sentBody != verif::Hex(body)) CFAIL("frame:python-out", "message_transceiver_thread.py sent a different body");
-      if (r.recvDump != mdump) CFAIL("frame:cpp->python", "MessageTransceiverThread delivered different content for the C++ gateway's stream: " + r.recvDump + " expected " + mdump);
+   if (fl.find('t') != std::string::npos) {
+      if (r.sentHdr == "-" && r.recvDump == "-") CFAIL("harness:python", "the transceiver exercise did not run for this case");
+      if (r.sentHdr.compare(0, 4, "ERR:") == 0) CFAIL("frame:python-out" + sfx, "MessageTransceiverThread: " + r.sentHdr);
+      if (r.sentHdr != verif::Hex(rc::Frame((uint32_t)body.size()))) CFAIL("frame:python-out" + sfx, "message_transceiver_thread.py frame header " + r.sentHdr + " expected " + verif::Hex(rc::Frame((uint32_t)body.size())) + " for " + mdump);
+      if (r.sentBody != verif::Hex(body)) CFAIL("frame:python-out" + sfx, "message_transceiver_thread.py sent a different body");
+      if (r.recvDump.compare(0, 4, "ERR:") == 0) CFAIL("frame:cpp->python" + sfx, "MessageTransceiverThread: " + r.recvDump);
+      if (r.recvDump != mdump) CFAIL("frame:cpp->python" + sfx, "MessageTransceiverThread delivered different content for the C++ gateway's stream: " + r.recvDump + " expected " + mdump);
    }
    c.Outcome(fl + ":" + r.reflat);
 }
@@ -502,16 +528,17 @@ int main(int argc, char ** argv)
    verif::Args args; args.Parse(argc, argv);
    verif::Result res; res.harness = "C08_crosscodec";
    if (!HostIsLittleEndian()) { res.infra_errors.push_back("host is not little-endian"); return res.Write(args); }
-   Gen G; const size_t N = G.Count();
-   auto desc = [&](size_t i) -> std::string { rc::AbsMsg m; std::string d; return G.Make(i, m, &d) ? d : std::string("{\"duplicate\": true}"); };
+   Gen G(args.Thorough() || !args.replay.empty()); const size_t N = G.Count();
+   auto desc = [&](size_t i) -> std::string { rc::AbsMsg m; std::string d; return G.Make(i, m, &d) ? d : std::string("{\"not_in_set\": true}"); };
    size_t distinct = 0, pyRun = 0, pyNative = 0, pySkipped = 0;
    { rc::AbsMsg m; for (size_t i = 0; i < N; i++) if (G.Make(i, m)) { distinct++; std::string f = PyFlags(m); if (f == "x") pySkipped++; else { pyRun++; if (f.find('n') != std::string::npos) pyNative++; } } }
-   const std::string setText = verif::Fmt("every Message of the generated set: primary field of each of %u kinds (bool, int8/16/32/64, 3 float and 3 double value sets incl. +-0, signalling/quiet NaN with payload, +-inf, denormal, max; UTF-8 string incl. empty and 2/3/4-byte sequences; non-UTF-8 string; point and rect with and without NaN; B_RAW_TYPE incl. a buffer holding the protocol magic and zero-length buffers (also as last item); raw with a private type code; nested Message (empty / with fields / with sub-sub-Messages)) x 1..3 items (field name 'f' / EMPTY / non-ASCII) x (no second field | a 2-item second field of each kind) x wrapped 0..3 times into parent Messages (the second level holding it twice, sibling int16 field before or after), nesting capped at 3: %u index combinations, %u distinct Messages (a combination exceeding the nesting cap is skipped).", (unsigned)G.NK(), (unsigned)N, (unsigned)distinct);
+   const std::string setText = verif::Fmt("every Message of the generated set: primary field of each of %u kinds (bool, int8/16/32/64, 3 float and 3 double value sets incl. +-0, signalling/quiet NaN with payload, +-inf, denormal, max; UTF-8 string incl. empty and 2/3/4-byte sequences; non-UTF-8 string; point and rect with and without NaN; B_RAW_TYPE incl. a buffer holding the protocol magic and zero-length buffers (also as last item); raw with a private type code; nested Message (empty / with fields / with sub-sub-Messages)) x %s items (field name 'f' / EMPTY / non-ASCII UTF-8 / 'four') x (no second field | a second field of each kind with %s items) x wrapped 0..3 times into parent Messages (the second level holding it twice, sibling int16 field before or after), nesting capped at 3: %u distinct Messages (index space of %u; an index outside the tier's sub-space or beyond the nesting cap is not a case).", (unsigned)G.NK(), args.Thorough() ? "1..4" : "1..3", args.Thorough() ? "1..3" : "2", (unsigned)distinct, (unsigned)N);
 
    if (!args.replay.empty()) {
       verif::ReplayDoc d; if (!d.Load(args.replay)) { fprintf(stderr, "cannot read %s\n", args.replay.c_str()); return 3; }
       const std::string part = d.Str("part"); const size_t idx = (size_t)d.Int("index");
       if (part == "codecs") { mutx::Runner R(args, res, "codecs"); return R.ReplayIndex(idx, [&](size_t i, mutx::Case & c) { CheckCodecs(G, i, c); }, desc); }
+      if (part == "mini-gateway-out") { mutx::Runner R(args, res, "mini-gateway-out"); return R.ReplayIndex(idx, [&](size_t i, mutx::Case & c) { CheckMiniGatewayOut(G, i, c); }, desc); }
       if (part == "stream-frame") { mutx::Runner R(args, res, "stream-frame"); return R.ReplayIndex(idx, [&](size_t i, mutx::Case & c) { CheckFrames(G, i, c); }, desc); }
       if (part == "python") { PyData P; RunPython(G, args, P, true); mutx::Runner R(args, res, "python"); return R.ReplayIndex(idx, [&](size_t i, mutx::Case & c) { CheckPython(G, P, i, c); }, desc); }
       fprintf(stderr, "unknown part '%s'\n", part.c_str()); return 3;
@@ -526,11 +553,22 @@ int main(int argc, char ** argv)
       fprintf(stderr, "C08 codecs: cases=%llu outcomes=%llu wall=%.1fs\n", (unsigned long long)p.transitions, (unsigned long long)p.distinct_outcomes, p.wall_s);
    }
    if (args.WantPart("stream-frame")) {
-      mutx::Runner R(args, res, "stream-frame"); R.SetCpuLimit(20); R.SetDeadline(args.t0 + budget * 0.6);
+      mutx::Runner R(args, res, "stream-frame"); R.SetCpuLimit(20); R.SetDeadline(args.t0 + budget * 0.55);
       verif::Part & p = R.Run(N, [&](size_t i, mutx::Case & c) { CheckFrames(G, i, c); }, desc);
-      p.rule = setText + " Per Message: the bytes a real MessageIOGateway (default encoding) writes into an in-memory ByteBufferDataIO == refcodec frame (u32 body length, u32 'Enc0') + body; that stream, two Messages back to back fed in 5-byte pieces, is consumed by MGDoInput (mini) and UGDoInput (micro) which deliver both Messages with the same content; MGAddOutgoingMessage/MGDoOutput and UGGetOutgoingMessage+UMAdd*+UGOutgoingMessagePrepared/UGDoOutput (7-byte pieces) produce the identical stream, which a MessageIOGateway reading from a ByteBufferDataIO turns back into two equal Messages.";
-      p.extra["programs"] = "3"; p.extra["programs_compared"] = "[\"C++ MessageIOGateway\", \"C MiniMessageGateway\", \"C MicroMessageGateway\"]"; p.extra["disagreements_checked"] = verif::Fmt("%llu", (unsigned long long)distinct * 7);
+      p.rule = setText + " Per Message: the bytes a real MessageIOGateway (default encoding) writes into an in-memory ByteBufferDataIO == refcodec frame (u32 body length, u32 'Enc0') + body; that stream, two Messages back to back fed in 5-byte pieces, is consumed by MGDoInput (mini) and UGDoInput (micro) which deliver both Messages with the same content; UGGetOutgoingMessage+UMAdd*+UGOutgoingMessagePrepared/UGDoOutput (7-byte pieces) produce the identical stream, which a MessageIOGateway reading from a ByteBufferDataIO turns back into two equal Messages.";
+      p.extra["programs"] = "3"; p.extra["programs_compared"] = "[\"C++ MessageIOGateway\", \"C MiniMessageGateway (input side)\", \"C MicroMessageGateway\"]"; p.extra["disagreements_checked"] = verif::Fmt("%llu", (unsigned long long)distinct * 5);
       fprintf(stderr, "C08 stream-frame: cases=%llu outcomes=%llu wall=%.1fs\n", (unsigned long long)p.transitions, (unsigned long long)p.distinct_outcomes, p.wall_s);
+   }
+   if (args.WantPart("mini-gateway-out")) {
+      // The output side of the mini gateway is a part of its own: on the pinned tree MGAddOutgoingMessage trips UBSan (misaligned pointer store) on
+      // every call, which ends the case's process; kept apart, that finding cannot mask the other gateway comparisons.  Quick tier: the Messages
+      // without a second field; thorough tier: also those whose second field has the primary's kind (each death costs ~0.1 s of symbolisation).
+      const bool all = args.Thorough(); size_t ran = 0; { rc::AbsMsg m; for (size_t i = 0; i < N; i++) if (G.MiniOutSelected(i) && G.Make(i, m)) ran++; }
+      mutx::Runner R(args, res, "mini-gateway-out"); R.SetCpuLimit(20); R.SetDeadline(args.t0 + budget * 0.7);
+      verif::Part & p = R.Run(N, [&](size_t i, mutx::Case & c) { if (!G.MiniOutSelected(i)) { c.Outcome("not-in-set"); return; } CheckMiniGatewayOut(G, i, c); }, desc);
+      p.rule = setText + verif::Fmt(" Per Message (%s: %u Messages): the content built natively with MMPut*Field is queued twice with MGAddOutgoingMessage and drained by MGDoOutput in 7-byte pieces; the stream must equal refcodec frame + body twice, and a C++ MessageIOGateway reading it from a ByteBufferDataIO must deliver two Messages with the same content.", all ? "thorough tier: the Messages without a second field or with a second field of the primary's kind" : "quick tier: the Messages without a second field", (unsigned)ran);
+      p.extra["programs"] = "2"; p.extra["programs_compared"] = "[\"C MiniMessageGateway (output side)\", \"C++ MessageIOGateway\"]"; p.extra["disagreements_checked"] = verif::Fmt("%llu", (unsigned long long)ran * 2); p.extra["messages_run"] = verif::Fmt("%llu", (unsigned long long)ran);
+      fprintf(stderr, "C08 mini-gateway-out: cases=%llu outcomes=%llu wall=%.1fs\n", (unsigned long long)p.transitions, (unsigned long long)p.distinct_outcomes, p.wall_s);
    }
    if (args.WantPart("python")) {
       PyData P; const double t0 = verif::NowS(); RunPython(G, args, P, true);
